@@ -246,9 +246,12 @@ func (e *specEnv) eval(x Expr) Val {
 		if base.T != nil {
 			switch u := base.T.Underlying().(type) {
 			case *types.Map:
-				_, vcls := e.st.mapClasses(u)
+				// Go semantics: the zero value for absent keys and for a nil map
+				pcls, vcls := e.st.mapClasses(u)
 				vs := sortOf(u.Elem())
-				return Val{S: "(select (select " + e.heapTerm(vcls) + " " + base.S + ") " + idx.S + ")", Sort: vs, T: u.Elem()}
+				raw := "(select (select " + e.heapTerm(vcls) + " " + base.S + ") " + idx.S + ")"
+				pres := sAnd(sNot(sEq(base.S, "0")), "(select (select "+e.heapTerm(pcls)+" "+base.S+") "+idx.S+")")
+				return Val{S: sIte(pres, raw, e.st.zeroVal(u.Elem()).S), Sort: vs, T: u.Elem()}
 			case *types.Slice:
 				a := e.st.elemAddr(base, idx.S, u.Elem())
 				return e.st.loadFrom(e.heap, a, u.Elem())
@@ -400,7 +403,7 @@ func (e *specEnv) evalBin(n EBin) Val {
 		if r.T != nil {
 			if m, ok := r.T.Underlying().(*types.Map); ok {
 				pcls, _ := e.st.mapClasses(m)
-				return Val{S: "(select (select " + e.heapTerm(pcls) + " " + r.S + ") " + l.S + ")", Sort: "Bool"}
+				return Val{S: sAnd(sNot(sEq(r.S, "0")), "(select (select "+e.heapTerm(pcls)+" "+r.S+") "+l.S+")"), Sort: "Bool"}
 			}
 		}
 		e.fail("`in` needs a set, ghost set or map on the right: %s", exprString(n))
